@@ -82,11 +82,28 @@ func BoolT(b bool) *Term {
 	return FalseT
 }
 
+// small constants are shared (terms are immutable)
+var smallConst [65][256]*Term
+
+func init() {
+	for _, w := range []int{1, 8, 16, 32, 64} {
+		for v := 0; v < 256; v++ {
+			smallConst[w][v] = &Term{Op: OpConst, W: w, Val: uint64(v) & mask(w)}
+		}
+	}
+}
+
 func ConstT(w int, v uint64) *Term {
 	if w == 0 {
 		return BoolT(v != 0)
 	}
-	return &Term{Op: OpConst, W: w, Val: v & mask(w)}
+	v &= mask(w)
+	if v < 256 && w <= 64 {
+		if t := smallConst[w][v]; t != nil {
+			return t
+		}
+	}
+	return &Term{Op: OpConst, W: w, Val: v}
 }
 
 func VarT(name string, w int) *Term { return &Term{Op: OpVar, W: w, Name: name} }
